@@ -377,12 +377,17 @@ def gen(rng, tier, index):
         pdw = wdw << (-k)
     wnb = wdw // 8
     base = rng.choice([0, 0, 0x1000, 0x40000000, 0x80000000])
+    if base // wnb >= (1 << 29):
+        base = 0x1000      # keep the base inside the lower half of the 30-bit bus address space
     d = {"wb_dw": wdw, "port_dw": pdw, "base": base, "paw": paw}
     woff = base // wnb
     n = rng.choice([1, 2, 4, 8, 20, 50]) if tier == "quick" else rng.choice([2, 5, 15, 40, 100])
     ratio = max(1, pdw // wdw)
     # "wide" = index of a native-port-sized word (narrow path) / of a bus word (other paths); include the top of the range
     top = (1 << d["paw"]) if wdw <= pdw else (1 << d["paw"]) // (wdw // pdw)
+    # the bus address is 30 bits wide: the mapped window ends where base + offset leaves the bus address space (an address that
+    # wraps to below the base is outside the window and nobody relies on what it does)
+    top = min(top, ((1 << 30) - woff) // ratio)
     pool = [rng.getrandbits(10) for _ in range(4)] + [top - 1, top - 2, top // 2, top // 2 + 1, top // 4 * 3]
     wide = rng.sample(pool, rng.choice([1, 1, 2, 4]))
     abort_p = rng.choice([0.0, 0.0, 0.1, 0.3])
